@@ -19,7 +19,7 @@ Inductive jv :=
 | JNull
 | JBool (b : bool)
 | JNum (bits : N)                 (* float64, IEEE-754 bit pattern *)
-| JStr (s : bytes)                (* valid UTF-8 assumed *)
+| JStr (s : bytes)                (* any bytes; see utf8_fix *)
 | JArr (l : list jv)
 | JObj (m : list (bytes * jv))    (* map[string]interface{}: unique keys *)
 | JBad (k : N)                    (* chan / func / complex128: json.UnsupportedTypeError *)
@@ -38,13 +38,18 @@ Fixpoint marshalable (v : jv) : bool :=
   | _ => true
   end.
 
+Definition members_marshalable (m : list (bytes * jv)) : bool := forallb (fun kv => marshalable (snd kv)) m.
+
 (* what the handlers are given *)
 Inductive payload :=
 | PData (v : jv) (merr : bytes)          (* Data(ctx, v); merr = the text of json.Marshal's error when v is refused *)
 | PSys (c : Z)                           (* Error(ctx, SystemError(c)) *)
 | PCplx (c : Z) (msg : bytes)            (* Error(ctx, SystemComplexError{c, msg}) / CplxError *)
 | PApp (c : Z) (msg : bytes)             (* Error(ctx, e) with e.Code() = c, e.Error() = msg *)
-| PPlain (st : option Z) (msg : bytes).  (* any other error; st = its Status() if it implements HTTPStatus *)
+| PPlain (st : option Z) (msg : bytes)   (* any other error; st = its Status() if it implements HTTPStatus *)
+| PRaw (st : option Z) (m : list (bytes * jv)) (merr : bytes).
+    (* Data(ctx, v) with a replaced FilterData hook (the Filter* variables are public API): the
+       hook returns an arbitrary object with members m, which may implement HTTPStatus (st) *)
 
 Inductive abody :=
 | BEnv (cb : bytes) (members : list (bytes * jv))   (* json.Marshal(object), wrapped as cb(json) when cb <> "" *)
@@ -88,6 +93,12 @@ Definition respond (g : cfg) (cb : bytes) (p : payload) : resp :=
   | PCplx c msg => json_handler g cb [(k_code, JInt c); (k_data, JStr msg)]
   | PApp c msg => json_handler g cb [(k_code, JInt c); (k_data, JStr msg)]
   | PPlain st msg => plain_handler g st msg
+  | PRaw st m merr =>
+      (* jsonHandler: marshal; status := rv.(HTTPStatus).Status() if implemented, else 200 *)
+      if members_marshalable m
+      then {| status := match st with Some s => s | None => 200 end;
+              ctyp := if is_nil cb then CtJson else CtJs; server := srv_name g; body := BEnv cb m |}
+      else plain_handler g None merr
   end.
 
 (* ---- WriteVersion(w, r, version): "major.minor.revision-extra", every number through
@@ -171,6 +182,17 @@ Definition round53 (z : Z) : Z :=
     let q' := if r <? half then q else if half <? r then q + 1 else if Z.even q then q else q + 1 in
     Z.sgn z * (q' * 2 ^ e).
 
+(* int(f) for a float64 given by its bits: truncation toward zero (|f| < 2^63) *)
+Definition f64_to_int (bits : N) : Z :=
+  let b := Z.of_N bits in
+  let neg := 9223372036854775808 <=? b in
+  let e := (b / 4503599627370496) mod 2048 in
+  let frac := b mod 4503599627370496 in
+  let m := if e =? 0 then frac else frac + 4503599627370496 in
+  let e' := if e =? 0 then 1 else e in
+  let a := if 1075 <=? e' then m * 2 ^ (e' - 1075) else m / 2 ^ (1075 - e') in
+  if neg then - a else a.
+
 Fixpoint lookup (k : bytes) (m : list (bytes * jv)) : option jv :=
   match m with
   | [] => None
@@ -182,7 +204,7 @@ Definition view_of_members (m : list (bytes * jv)) : view :=
   match lookup k_code m with
   | None => VNoCode
   | Some (JInt z) => VCode (round53 z)
-  | Some (JNum _) => VNotNum   (* not produced by the handlers; kept total *)
+  | Some (JNum bits) => VCode (f64_to_int bits)   (* only with a replaced filter hook *)
   | Some _ => VNotNum
   end.
 
@@ -195,25 +217,26 @@ Definition client (st : Z) (v : view) : Z * bool :=
   | _ => (0, true)
   end.
 
-(* the view of an abstract body; [tv] is the oracle's answer for a text body *)
-Definition body_view (b : abody) (tv : view) : view :=
+(* the view of an abstract body; [tv] is the oracle's answer for a text body, [jtv] its answer
+   for the text callback(json) (in practice VFail: a JSONP body is not a JSON document) *)
+Definition body_view (b : abody) (tv jtv : view) : view :=
   match b with
   | BEnv [] m => view_of_members m
-  | BEnv _ _ => VFail
+  | BEnv _ _ => jtv
   | BText _ => tv
   end.
 
 (* ---- harness interface ----
-   case (payload xcb xserver pid api xmb)     api: which wrapper is called (Data / WriteData / Success,
+   case (payload xcb xserver pid api xmb jtv)     api: which wrapper is called (Data / WriteData / Success,
                                               Error / WriteError / CplxError / WriteCplxError); not modelled apart
-     payload = (0 v xmerr tv) | (1 c) | (2 c xmsg w) | (3 c xmsg hs) | (4 st xmsg tv) | (5 xversion): WriteVersion   st = -1: no Status()
+     payload = (0 v xmerr tv) | (1 c) | (2 c xmsg w) | (3 c xmsg hs) | (4 st xmsg tv) | (5 xversion): WriteVersion | (6 st (5 (xkey v)...) xmerr tv): Data with a replaced FilterData   st = -1: no Status()
      v = (0) | (1 b) | (2 bits) | (3 xstr) | (4 v...) | (5 (xkey v)...) | (6 k)
      tv = (0) | (1) | (2) | (3 c): what encoding/json + apiParse make of the text body
    xmb: json.Marshal of the expected envelope object, computed by the harness itself (empty for
    text bodies).
    observation (status ctype xserver body client xwire)   xwire = the complete body bytes
      ctype 0 json 1 javascript 2 text;  body = (0 xcb ((xkey v)...)) | (1 xtext)
-     client = (err code) for a request without callback, () otherwise *)
+     client = (err code);  jtv: the oracle's view of the text callback(json) *)
 Fixpoint sx_jv (fuel : nat) (s : sx) : option jv :=
   match fuel with
   | O => None
@@ -281,6 +304,11 @@ Definition sx_payload (s : sx) : option (payload * view) :=
       | Some t => Some (PPlain (if st <? 0 then None else Some st) msg, t)
       | None => None
       end
+  | SL [SZ 6; SZ st; mm; SB merr; tv] =>
+      match sx_jv 64 mm, sx_view tv with
+      | Some (JObj m), Some t => Some (PRaw (if st <? 0 then None else Some st) m merr, t)
+      | _, _ => None
+      end
   | _ => None
   end.
 
@@ -293,18 +321,65 @@ Definition f64_bits_of_int (z : Z) : N :=
        let mant := (if e <=? 52 then a * 2 ^ (52 - e) else a / 2 ^ (e - 52)) - 4503599627370496 in
        Z.to_N ((if z <? 0 then 9223372036854775808 else 0) + (e + 1023) * 4503599627370496 + mant).
 
+(* encoding/json writes every byte that does not start a valid UTF-8 sequence (utf8.DecodeRune
+   gives RuneError with size 1) as U+FFFD; the table is unicode/utf8's first / acceptRanges *)
+Definition u_first (b : N) : option (N * N * N) :=
+  (if b <? 194 then None
+   else if b <? 224 then Some (2, 128, 191)
+   else if b =? 224 then Some (3, 160, 191)
+   else if b <? 237 then Some (3, 128, 191)
+   else if b =? 237 then Some (3, 128, 159)
+   else if b <? 240 then Some (3, 128, 191)
+   else if b =? 240 then Some (4, 144, 191)
+   else if b <? 244 then Some (4, 128, 191)
+   else if b =? 244 then Some (4, 128, 143)
+   else None)%N.
+Definition in_r (lo hi c : N) : bool := ((lo <=? c) && (c <=? hi))%N.
+Definition u_fffd : bytes := [239; 191; 189]%N.
+
+Fixpoint utf8_fix (s : bytes) : bytes :=
+  match s with
+  | [] => []
+  | b :: t =>
+      if (b <? 128)%N then b :: utf8_fix t
+      else match u_first b with
+           | None => u_fffd ++ utf8_fix t
+           | Some (size, lo, hi) =>
+               if (size =? 2)%N then
+                 match t with
+                 | c1 :: t' => if in_r lo hi c1 then b :: c1 :: utf8_fix t' else u_fffd ++ utf8_fix t
+                 | _ => u_fffd ++ utf8_fix t
+                 end
+               else if (size =? 3)%N then
+                 match t with
+                 | c1 :: c2 :: t' => if in_r lo hi c1 && in_r 128 191 c2 then b :: c1 :: c2 :: utf8_fix t'
+                                     else u_fffd ++ utf8_fix t
+                 | _ => u_fffd ++ utf8_fix t
+                 end
+               else
+                 match t with
+                 | c1 :: c2 :: c3 :: t' =>
+                     if in_r lo hi c1 && in_r 128 191 c2 && in_r 128 191 c3 then b :: c1 :: c2 :: c3 :: utf8_fix t'
+                     else u_fffd ++ utf8_fix t
+                 | _ => u_fffd ++ utf8_fix t
+                 end
+           end
+  end.
+
+(* what a JSON decoder reads back from the marshalled value (map keys: valid UTF-8 assumed) *)
 Fixpoint norm_jv (v : jv) : jv :=
   match v with
   | JInt z => JNum (f64_bits_of_int z)
+  | JStr s => JStr (utf8_fix s)
   | JArr l => JArr ((fix go (l : list jv) := match l with [] => [] | x :: t => norm_jv x :: go t end) l)
   | JObj m => JObj ((fix go (m : list (bytes * jv)) :=
                        match m with [] => [] | (k, x) :: t => (k, norm_jv x) :: go t end) m)
   | _ => v
   end.
 
-(* top-level code / server members are compared as exact integers, everything below as decoded *)
-Definition member_sx (kv : bytes * jv) : sx :=
-  SL [SB (fst kv); jv_sx (match snd kv with JInt z => JInt z | v => norm_jv v end)].
+(* members as a decoder reads them back (exact integer codes are compared through the complete
+   body bytes, see wire_exec) *)
+Definition member_sx (kv : bytes * jv) : sx := SL [SB (fst kv); jv_sx (norm_jv (snd kv))].
 
 Definition ctype_code (c : ctype) : Z := match c with CtJson => 0 | CtJs => 1 | CtText => 2 end.
 
@@ -324,20 +399,21 @@ Definition wire_exec (mb : bytes) (b : abody) : bytes :=
   | BText t => t
   end.
 
-Definition obs_c19 (r : resp) (cb : bytes) (tv : view) (mb : bytes) : sx :=
-  let cl := if is_nil cb
-            then let '(code, err) := client (status r) (body_view (body r) tv) in SL [sbool err; SZ code]
-            else SL [] in
+Definition obs_c19 (r : resp) (tv jtv : view) (mb : bytes) : sx :=
+  let cl := let '(code, err) := client (status r) (body_view (body r) tv jtv) in SL [sbool err; SZ code] in
   SL [SZ (status r); SZ (ctype_code (ctyp r)); SB (server r); body_sx (body r); cl; SB (wire_exec mb (body r))].
 
 Definition run_c19 (c : sx) : sx :=
   match c with
-  | SL [SL [SZ 5; SB ver]; SB cb; SB srv; SZ pd; SZ _; SB mb] =>
-      obs_c19 (respond_version {| srv_name := srv; pid := pd |} cb ver) cb VFail mb
-  | SL [p; SB cb; SB srv; SZ pd; SZ _; SB mb] =>
-      match sx_payload p with
-      | Some (pl, tv) => obs_c19 (respond {| srv_name := srv; pid := pd |} cb pl) cb tv mb
+  | SL [SL [SZ 5; SB ver]; SB cb; SB srv; SZ pd; SZ _; SB mb; jv0] =>
+      match sx_view jv0 with
+      | Some jtv => obs_c19 (respond_version {| srv_name := srv; pid := pd |} cb ver) VFail jtv mb
       | None => bad_case
+      end
+  | SL [p; SB cb; SB srv; SZ pd; SZ _; SB mb; jv0] =>
+      match sx_payload p, sx_view jv0 with
+      | Some (pl, tv), Some jtv => obs_c19 (respond {| srv_name := srv; pid := pd |} cb pl) tv jtv mb
+      | _, _ => bad_case
       end
   | _ => bad_case
   end.
